@@ -12,597 +12,824 @@ Definition show_fres (r : fres) : string :=
   end.
 Definition check (rs : list rune) : string := digest (show_fres (format_res rs)).
 Definition full (rs : list rune) : string := show_fres (format_res rs).
-Eval vm_compute in ("<<<M207>>>" ++ check (runes_of_ascii "root packet A {
-    } packet int //
-{
-    @calculatedFrom( ""a\""b""	) u32 x_y_z @lengthOf( u
-    ) , repeat
-    _x charz`tab	here`
-, stringy stringy ,
-@calculatedFrom(
-""" ++ [28040; 24687]%N ++ runes_of_ascii """ ) repeat
-// `tick` ""quote"" 'q'
-// a // b
-falsey {
-zchar[ 255
-    ]
-As @lengthOf(BodyLength ) , match Z9_
-    as As	{ [
-0123456789, 007, ""a\\"", ""\" ++ [233]%N ++ runes_of_ascii """// 50% %s
-, ""x y"" ,3 ] : i8i8
-    ,} ,	} , f32a
-    {match leftPad as crc{	[ ""\" ++ [233]%N ++ runes_of_ascii """ , // " ++ [128512]%N ++ runes_of_ascii " emoji
-""packet""
-,
-65535 ,""`tick`"",
-""`tick`"" ,
-""a\\"" , """" ,
-    //x
-    ""// no comment""
+Eval vm_compute in ("<<<M1582>>>" ++ check (runes_of_ascii "
+MetaData Logon
+    {	zchar[ 7 ]
+	BodyLength	,
+	char
+Header
+    , 
+
 // @lengthOf(
-//	t
-]// 50% %s
-: calculatedFrom""packet""
-    :
-// c
-//
-Packet // c
-, [ //x
-4294967296 ,
+int8 
+x_y_z  // @lengthOf(
+    `u8 x,`,
+	i32
+falsey ,//
+int16
+
+lengthOf`two words` ,
+
+    }
+    root packet options1
+{
+
+repeat A BodyLength, metadata {
+	u64
+	calculatedFrom
+``  ,
+	}
+
+    ,	body{ i16
+matchKey ,
+uint16 packetx`// not a comment`
+
+    , 
+a1 	 // 50% %s
+  `` ,repeat
+
+    packetx 
+    // " ++ [27880; 37322]%N ++ runes_of_ascii "
+  , }
+    ,body u8x
+`a\` 
+,
+
+@tag( 
+10
+	)
+    @tag(
+
+00  )
     // c
-    4294967296
-    ,//x
+	@rightPad (  '\x00'  )
+repeat tag 
+{
+i16  u
+
+    `" ++ [233]%N ++ runes_of_ascii "`
+	, 
+}
+,
+        // a // b
+  // c
+@lengthOf( u
+	)	@calculatedFrom( """ ++ [128512]%N ++ runes_of_ascii """  )
+i16
+
+    falsey  ,f32a  @lengthOf(  uint8x ) `it's` , asx
+
+@lengthOf( 	 // 50% %s
+
+Header
+)	`two words`
+	,
+        // `tick` ""quote"" 'q'
+	@lengthOf( A//
+	)
+
+    @lengthOf( 
+int )@calculatedFrom( ""1"" 
+)	char[]	uint8x
+
+    ,x_y_z@lengthOf(
+    Foo
+
+) 
+`crlf
+line` 
+, 
+} packet	// @lengthOf(
+    stringy { repeat 
+string len
+
+    ,
+@calculatedFrom( 
 ""{,}""
-// " ++ [128512]%N ++ runes_of_ascii " emoji
-// `tick` ""quote"" 'q'
-]  :T [0 ,0  , """ ++ [233]%N ++ runes_of_ascii "t" ++ [233]%N ++ runes_of_ascii """ , 42 ,
-""a	b"", 7
-]: tag 3: As  , }
-, char[]
-matchKey
-    `crlf
-line`
-, // packet A { u8 x, }
-}
-,repeat zchar[
-    //	t
-    4294967296 ] As , rootA	T
-,
-// @lengthOf(
-// " ++ [128512]%N ++ runes_of_ascii " emoji
-@tag( 65535
-)
-    @calculatedFrom(
-""{,}"" // a // b
-)
-    /// triple
-    repeat// @lengthOf(
-i16 Z9_ `{ , }` , @calculatedFrom( ""{,}"") len {
-match// trailing space 
-u128 //
-as
-zchar {[	00 , 4294967296
-    ] // 50% %s
-:  charz
-,""a\\""
-    :	i8i8  ,""" ++ [233]%N ++ runes_of_ascii "t" ++ [233]%N ++ runes_of_ascii """ :
-    x_y_z,65535 :uint8x
-,
-}, repeat leftPad { f32 u128	@lengthOf(
-As ) ,
-    body `" ++ [28040; 24687; 31867; 22411]%N ++ runes_of_ascii "` , rootA// @lengthOf(
-Pad
-,} ,
-char[ 00 ] msg_type `say ""hi""`// `tick` ""quote"" 'q'
-,
-    /// triple
-    zchar[ // @lengthOf(
-0123456789	] falsey,
-    // " ++ [27880; 37322]%N ++ runes_of_ascii "
-    } ,
-    repeat int
-`a\`
-, } root
-packet f32a { int8
-    Header ``,
-    }
+)repeat
+	o //
 
-")).
-Eval vm_compute in ("<<<M1377>>>" ++ check (runes_of_ascii "// top
-options
-    // c0
-{ ArrayPrefixLenType // c2a
-  // c2b
-=
-    // c3
-u64 // c4
-;
-    // c5
-FixedStringPadFromLeft
-    // c6
-= // c7a
-  // c7b
-true // c8
-;
-    // c9
-FixedStringPadChar // c10
-= // c11
-'0'
-    // c12
-; // c13a
-  // c13b
-}
-    // c14
-packet // c15
-Order {
-    // c17
-}
-    // c18
-root // c19a
-  // c19b
-packet // c20
-Leg // c21a
-  // c21b
-{ // c22a
-  // c22b
-char[] Ref
-    // c24
-, // c25a
-  // c25b
-repeat // c26
-Order // c27a
-  // c27b
-, // c28a
-  // c28b
-f32 // c29
-Acct
-    // c30
-,
-    // c31
-@leftPad
-    // c32
-( // c33a
-  // c33b
-'0'
-    // c34
-) char[ 10 ] // c38
-venue // c39a
-  // c39b
-, // c40
-@rightPad // c41a
-  // c41b
-(
-    // c42
-'0' // c43a
-  // c43b
-) char[ 3
-    // c46
-] // c47
-seqNo // c48
-,
-    // c49
-repeat u64 // c51
-Px // c52a
-  // c52b
-,
-    // c53
-u8 // c54
-Flags , // c56
-u32
-    // c57
-lastPx // c58
-@lengthOf( Body )
-    // c61
-,
-    // c62
-match // c63
-Flags
-    // c64
-as
-    // c65
-Body // c66a
-  // c66b
-{
-    // c67
-185 : Order , // c71a
-  // c71b
-}
-    // c72
-, // c73
-u16 // c74
-sym // c75a
-  // c75b
-@calculatedFrom( // c76
-""CRC32"" // c77a
-  // c77b
-)
-    // c78
-, // c79a
-  // c79b
-}
-    // c80
-")).
-Eval vm_compute in ("<<<M376>>>" ++ check (runes_of_ascii "packet
-    rootA
-{
-// a // b
-// " ++ [128512]%N ++ runes_of_ascii " emoji
-@tag( 00
-) match i8i8 as	f32a{ 0
-: u8x	,[ ""a\\""]: BodyLength ,[""{,}"" ]: body
-,4294967296 : options1, // c
-""CRC32""
-: A
-    ,}
-// c
-// " ++ [27880; 37322]%N ++ runes_of_ascii "
-,
-Logon
-    @lengthOf(
-T ) , @lengthOf( stringy)char[
-    0123456789]zchar ,	zchar[ 1] i8i8 `it's`, @calculatedFrom(
-// 50% %s
-// packet A { u8 x, }
-""1"" )
-    // `tick` ""quote"" 'q'
-    repeat zchar[
-42] A
-    `u8 x,` , i16 A @calculatedFrom( //
-""packet""
-// " ++ [128512]%N ++ runes_of_ascii " emoji
-/// triple
-) , /// triple
-@lengthOf( MetaDataX
-    ) match
-    // " ++ [27880; 37322]%N ++ runes_of_ascii "
-    falsey
-    as repeatCount { 0123456789:T, } ,@leftPad
-( // " ++ [27880; 37322]%N ++ runes_of_ascii "
-'\x00' ) @rightPad ( '0'
-) @tag(
-0 ) repeat len {
-trueish rootA`" ++ [28040; 24687; 31867; 22411]%N ++ runes_of_ascii "` ,
-    char[
-    7 ] repeatCount
-@calculatedFrom( ""// no comment""
-) , string_ @calculatedFrom( ""it's"" ) ,
-} , repeat Header `say ""hi""` ,
-//x
-//x
-match
-    packetx as Packet {[
-""`tick`""] :
-    asx 7	:
-    asx
-    [ ""a\\""	]// `tick` ""quote"" 'q'
-: /// triple
-float ,
-""packet"" :
-lengthOf ""x y"" : len , }  ,}")).
-Eval vm_compute in ("<<<M353>>>" ++ check (runes_of_ascii "root packet rootA {} packet // 50% %s
-Z9_ { repeat char[ 007] f32a , @rightPad ( )
-u32 Header `a\`,repeat Z9_, repeat i8i8
-    // 50% %s
-    int `u8 x,` // a // b
-, // `tick` ""quote"" 'q'
-uint8x , f64
-// @lengthOf(
-// `tick` ""quote"" 'q'
-i8i8  `" ++ [28040; 24687; 31867; 22411]%N ++ runes_of_ascii "` , @tag(
-//x
-// 50% %s
-3 ) // `tick` ""quote"" 'q'
-@tag(  3 ) @tag( 10
-) repeat int{ MetaDataX ,	} , @tag( 10 ) int8
-    // " ++ [128512]%N ++ runes_of_ascii " emoji
-    pack@lengthOf(	x ) ,
-    } packet metadata {
-    @calculatedFrom(""" ++ [233]%N ++ runes_of_ascii "t" ++ [233]%N ++ runes_of_ascii """ ) repeat
-    rootA uint8x, @calculatedFrom( ""\n"" ) @lengthOf(len ) BodyLength{ matchKey f32a `a\`
-,} ,
-char[]leftPad
-`tab	here`
-    ,
-    // " ++ [27880; 37322]%N ++ runes_of_ascii "
-    u32  a1,} packet
-trueish { @tag( 007 ) f64 f32a  @calculatedFrom( """")`say ""hi""`/// triple
-, @calculatedFrom( ""packet""
-    ) @calculatedFrom(
-    """ ++ [28040; 24687]%N ++ runes_of_ascii """// trailing space 
-)repeat char[	3 ]zchar`
-` , } MetaData tag
-{
-}
-")).
-Eval vm_compute in ("<<<M295>>>" ++ check (runes_of_ascii "root
-    packet
-charz { float32 matchKey @lengthOf(falsey ) ``,	@lengthOf( stringy )trueish
-    {uint16 f32a@lengthOf(Foo // 50% %s
-)
-// " ++ [27880; 37322]%N ++ runes_of_ascii "
-//	t
-, }  ,// a // b
-@leftPad( ) repeat char[ 1 ] asx
-, @calculatedFrom(	""" ++ [233]%N ++ runes_of_ascii "t" ++ [233]%N ++ runes_of_ascii """)/// triple
-uint8 Foo , char metadata`crlf
-line`,// " ++ [27880; 37322]%N ++ runes_of_ascii "
-repeat x_y_z
-`tab	here` , @tag(65535 )  o{ uint16 rootA
-`100% of %d` ,match
-charz as
-    tag { 10 : float , 1 // trailing space 
-:
-Foo, } ,repeat char[ 0 ] _x, repeat Packet,
-} , @calculatedFrom(
-""" ++ [128512]%N ++ runes_of_ascii """ )@rightPad
-(
-    )matchKey { char[] roots `crlf
-line` ,uint8 trueish @calculatedFrom( ""CRC32"") `doc`	,// " ++ [27880; 37322]%N ++ runes_of_ascii "
-int64 crc @calculatedFrom( """ ++ [128512]%N ++ runes_of_ascii """ ) , } , @tag( 7 // @lengthOf(
-) zchar[ 42
-] uint8x @lengthOf( tag ) ,
-    } // " ++ [27880; 37322]%N)).
-Eval vm_compute in ("<<<M201>>>" ++ check (runes_of_ascii "//x
-packet body {leftPad
-@calculatedFrom( // " ++ [128512]%N ++ runes_of_ascii " emoji
-""it's""
-)//x
-`line1
-line2` , char[ 3 ]	matchKey , char[] MetaDataX `a\`,
-    repeat
-string_ { tag
-// c
-// packet A { u8 x, }
-`crlf
-line` , repeat x	metadata
-, u @calculatedFrom( """ ++ [128512]%N ++ runes_of_ascii """ )
-    , } ,@tag( 10 )
-// c
-// packet A { u8 x, }
-@lengthOf( T
-)@tag( 7// `tick` ""quote"" 'q'
-)repeatCount
-    lengthOf `tab	here`
-    , @rightPad( '\x00') zchar[ 7
-] rootA
-,
-@lengthOf( len // 50% %s
-) match
-    body as matchKey { 0123456789: stringy
-//
-// packet A { u8 x, }
-, ""x y""
-:	As
-, """ ++ [233]%N ++ runes_of_ascii "t" ++ [233]%N ++ runes_of_ascii """ : charz, 4294967296 : leftPad
-    ,	""" ++ [233]%N ++ runes_of_ascii "t" ++ [233]%N ++ runes_of_ascii """
-    : leftPad
-    ,
-//
-// @lengthOf(
-},} //	t")).
-Eval vm_compute in ("<<<M189>>>" ++ check (runes_of_ascii "packet body	{ @leftPad (
-    '\x00'
-    ) @tag(42
-    ) @tag( 65535  ) repeat
-    tag u `a\` // `tick` ""quote"" 'q'
-,Z9_ , //	t
-@tag(	10 )
-//	t
-// @lengthOf(
-f32 msg_type `// not a comment` , int16 matchKey
-    @calculatedFrom( ""a	b""
-    // a // b
-    )
-    `it's`  , }
-    packet T/// triple
-{	zchar[7
-    ]matchKey, falsey @lengthOf( stringy	) //x
-`crlf
-line`
-, } root packet options1
-    { @calculatedFrom( ""{,}""
-)
-matchKey @calculatedFrom(  ""`tick`""), zchar[0
-    ] stringy @lengthOf(int ) ,  } packet// packet A { u8 x, }
-msg_type
-{ } 	 ")).
-Eval vm_compute in ("<<<M2>>>" ++ check (runes_of_ascii "packet Logon { @lengthOf( leftPad )repeat calculatedFrom { match
-x_y_z
-as Z9_ {
-7 : MetaDataX [
-    /// triple
-    ""a\""b"" , 42 ]:uint8x, 00 :
-// a // b
-//	t
-stringy , // packet A { u8 x, }
-0
-    : leftPad,
-65535
-    : tag ,
-    [ 4294967296 , ""packet""// `tick` ""quote"" 'q'
-, 1,0123456789 , 1
-,""{,}"" , 42
-    ,""abc""] :
-uint8x ,
-}
-    , string
-    rootA `two words` // " ++ [27880; 37322]%N ++ runes_of_ascii "
-,  uint32 A ,char[0 ] T , }
-    ,  @tag(007 )
-    repeat zchar[ 7] f32a//
-`
-` , @lengthOf(T)float32 stringy `two words`, }")).
-Eval vm_compute in ("<<<M1308>>>" ++ check (runes_of_ascii "// top
-packet // c0
-A { // c2a
-  // c2b
-u8 a // c4a
-  // c4b
-, // c5a
-  // c5b
-}
-    // c6
-packet // c7a
-  // c7b
-B { // c9a
-  // c9b
-u16
-    // c10
-b // c11a
-  // c11b
-, // c12a
-  // c12b
-} root
-    // c14
-packet // c15
-P
-    // c16
-{ // c17a
-  // c17b
-u8 K // c19a
-  // c19b
-, // c20a
-  // c20b
-match // c21
-K as M // c24a
-  // c24b
-{
-    // c25
-1 // c26
-: // c27
-A , 1 // c30
-: B // c32a
-  // c32b
-,
-    // c33
-} , // c35a
-  // c35b
-} // c36
-")).
-Eval vm_compute in ("<<<M1447>>>" ++ check (runes_of_ascii "packet uint8x {
-}
+{ u64 float,
 
-root packet repeatCount {
-    @rightPad( '\x00')
-    // 50% %s
-    i16 roots,
-    @rightPad()
-    repeat trueish {
-        tag @calculatedFrom(""1"") `line1
-        line2`,
-        string crc `100% of %d`,
-        repeat char[] trueish `// not a comment`,
-        repeat BodyLength u `{ , }`,
-    },
-    char tag,
-    @lengthOf(body)
-    @tag(007)
-    @calculatedFrom(""" ++ [128512]%N ++ runes_of_ascii """)
-    char[007] uint8x,
-}")).
-Eval vm_compute in ("<<<M0>>>" ++ check (runes_of_ascii "packet leftPad// 50% %s
-{@tag(10 )@tag( 007) @lengthOf( a1 )repeat
-metadata , }
-    options
-{ // " ++ [128512]%N ++ runes_of_ascii " emoji
-lengthOf
-    // @lengthOf(
-    = """ ++ [128512]%N ++ runes_of_ascii """
-; }	packet
-T  {A
-    // " ++ [27880; 37322]%N ++ runes_of_ascii "
-    { tag
-@calculatedFrom(
-//
-// `tick` ""quote"" 'q'
-""abc""),}
-, @lengthOf(
-    matchKey ) string
-    Header @lengthOf(	metadata ) ,
-leftPad @calculatedFrom(""a\""b""
-    // trailing space 
-    )
-`tab	here` ,}")).
-Eval vm_compute in ("<<<M180>>>" ++ check (runes_of_ascii "packet Logon{char[ 0123456789 ]Pad	`a\`
-, match pack //	t
-as As {
-[ ""1"" , ""a	b"" ,
-0,""packet"" ] // @lengthOf(
-: u, 7
+    }, 
+match  i64_ as 
+Pad  {
+[1
+] :
+    roots
+    ,""it's"" 
+	// packet A { u8 x, }
+	: 	 // @lengthOf(
+	uint8x 
+1
+
     :
-asx  , } , @lengthOf(
-Logon
-) match
-    A as zchar //
-{10 :
-o ,
-    }
+
+MetaDataX	,
+[
+
+255
+    ,	""a\""b""	,	// `tick` ""quote"" 'q'
+	""" ++ [233]%N ++ runes_of_ascii "t" ++ [233]%N ++ runes_of_ascii """  //	t
+    ,65535 ,
+4294967296,7
+	,	0123456789 ] 
+: 
+len 
 ,
-    @leftPad (// " ++ [128512]%N ++ runes_of_ascii " emoji
-'0') o {
-repeat f32
-Logon
-,
-repeatCount
-    @calculatedFrom(
-    ""\n"" ),
-// @lengthOf(
+255:metadata, ""it's"" 
+:
+calculatedFrom ,
 // `tick` ""quote"" 'q'
-} , }")).
-Eval vm_compute in ("<<<M307>>>" ++ check (runes_of_ascii "packet
-a1
-{ zchar[ 0] x`say ""hi""` , } packet // trailing space 
-BodyLength {
-    match Pad
-as A {""\n"" : len } , } MetaData repeatCount
-    {
-string tag ,
-    }
-    MetaData trueish {u128 string_ ,
-char[ 00 // trailing space 
-] o
-    , string tag,  } packet calculatedFrom { BodyLength `tab	here`, }
+    	}  ,
+    @lengthOf(  msg_type
+    ) falsey@calculatedFrom(	""" ++ [28040; 24687]%N ++ runes_of_ascii """	)
+,repeat	char[]	trueish ,zchar[1  ]  A ,  // `tick` ""quote"" 'q'
+  repeat
+	metadata 
+{
+zchar[ 
+  // c
+
+  //x
+
+	7
+    ]
+
+Pad  ,	} 
+,@tag( 3  //
+) i32  body
+
+`u8 x,`
+    ,	} // trailing space ")).
+Eval vm_compute in ("<<<M1503>>>" ++ check (runes_of_ascii "  options { packetx 	 /// triple
+	  =42
+;	}  root packet 
+falsey{ @tag(  1 )
+	crc {	repeat 
+char[007
+
+] charz	// 50% %s
+	  `it's`
+	,repeat
+u8  len `
+`
+    ,
+	crc
+trueish 
+,
+}
+	,	match
+float  as
+
+string_
+{	""x y"" 
+:  
+      // " ++ [27880; 37322]%N ++ runes_of_ascii "
+	  //
+zchar ,""" ++ [128512]%N ++ runes_of_ascii """
+	    // " ++ [128512]%N ++ runes_of_ascii " emoji
+	  : string_ 
+// trailing space 
+  	// @lengthOf(
+  ,
+""CRC32""
+	:
+
+options1 ,  [ ""1"" 	 // c
+  ]:	crc  ,
+
+""packet""	// " ++ [27880; 37322]%N ++ runes_of_ascii "
+	:
+options1	,
+	[	42,	""a	b""
+    , 
+      // trailing space 
+    """ ++ [233]%N ++ runes_of_ascii "t" ++ [233]%N ++ runes_of_ascii """	/// triple
+
+	,
+""abc""
+
+    ,
+
+0123456789
+,
+
+    ""{,}""
+,	// trailing space 
+	  00 , """ ++ [233]%N ++ runes_of_ascii "t" ++ [233]%N ++ runes_of_ascii """// packet A { u8 x, }
+    ]:
+asx
+}
+	,repeat f64 charz  , @tag(10  )repeat
+charz
+
+Logon
+
+,
+	@lengthOf(
+
+u8x )
+@calculatedFrom(""a\""b"")
+	@rightPad// @lengthOf(
+	(
+' '
+) 
+u8 
+a1	`u8 x,` ,
+}
+	packet falsey
+{ repeat
+    char[]zchar
+, @tag(255
+    ) @calculatedFrom(
+	""`tick`"" )char[] asx 
+`say ""hi""`
+	,	u8
+	As 
+`u8 x,` , 	 // 50% %s
+  zchar[
+
+00	]
+    uint8x	@lengthOf(// packet A { u8 x, }
+  zchar  )
+	,
+char[  255  ]	uint8x ,
+    Pad	@lengthOf(
+
+    // packet A { u8 x, }
+  _x )
+`" ++ [233]%N ++ runes_of_ascii "`
+    , _x 
+,
+@rightPad (  ' '
+
+    )uint16
+    BodyLength/// triple
+  ,	@lengthOf(
+	int  // " ++ [128512]%N ++ runes_of_ascii " emoji
+  )
+metadata
+tag
+	,
+	int64 string_  `
+` , 
+} root
+
+    packet
+
+    o
+{ } options // packet A { u8 x, }
+
+  {
+} ")).
+Eval vm_compute in ("<<<M237>>>" ++ check (runes_of_ascii "options
+    { }
+packet
+x{ repeat // trailing space 
+rootA {
+    repeat string Header , } ,
+chars	float , @tag(65535
+)
+x_y_z { repeat	T`// not a comment` ,string string_ /// triple
+@lengthOf( x_y_z) `say ""hi""`, Header len  ``,	string lengthOf , }, @tag(  0123456789
+)match crc
+as BodyLength{ ""\" ++ [233]%N ++ runes_of_ascii """	:	repeatCount 65535//x
+: i8i8 ,
+0  : A  ,
+    [ ""a	b"" ,  7	] :packetx , }, @lengthOf(charz	) match
+    body as uint8x{// 50% %s
+00:	stringy
+    [007 , ""`tick`"" // 50% %s
+, ""\n"" ]	:
+T [ ""// no comment"", ""a\\""] : float , [ 10
+] : //x
+A , ""a	b"": //	t
+roots	}
+    , pack { match // a // b
+Pad as
+    calculatedFrom { 255
+    :string_""" ++ [28040; 24687]%N ++ runes_of_ascii """
+    :  i64_,}  , // " ++ [27880; 37322]%N ++ runes_of_ascii "
+uint32  matchKey@calculatedFrom(
+    ""1""
+    // 50% %s
+    ) ,len leftPad , repeat MetaDataX{ i64
+// " ++ [128512]%N ++ runes_of_ascii " emoji
+//
+len , }
+    ,
+    } ,char[]tag
+// packet A { u8 x, }
+//x
+@calculatedFrom( ""packet"" )
+// `tick` ""quote"" 'q'
+// a // b
+`line1
+line2`, float , uint8x
+    @lengthOf(
+crc )
+    `it's`,
+    @tag(	007 )
+float32 tag @calculatedFrom(""" ++ [233]%N ++ runes_of_ascii "t" ++ [233]%N ++ runes_of_ascii """) , }
+")).
+Eval vm_compute in ("<<<M1913>>>" ++ check (runes_of_ascii "
+// a // b
+root
+
+packet 
+uint8x { repeat
+x
+
+    {	tag
+
+@calculatedFrom( ""// no comment"") `it's` ,  } ,
+    //x
+	A 
+	//	t
+    // @lengthOf(
+  @calculatedFrom( // trailing space 
+  ""abc""
+    ), uint64 zchar	, 
+
+    //	t
+    //	t
+	zchar[
+
+7
+    ]
+msg_type,
+
+@calculatedFrom(  """ ++ [28040; 24687]%N ++ runes_of_ascii """ 
+// " ++ [27880; 37322]%N ++ runes_of_ascii "
+  )
+    crc  ,
+        // `tick` ""quote"" 'q'
+f32a
+Pad , 
+Header
+
+// 50% %s
+	//x
+  ,  // trailing space 
+
+zchar[
+42] x
+    @calculatedFrom(  ""\n""  )  `" ++ [28040; 24687; 31867; 22411]%N ++ runes_of_ascii "`
+,
+
+string len
+,  }  packet
+
+    falsey{
+
+// " ++ [27880; 37322]%N ++ runes_of_ascii "
+  i64_ 
+@calculatedFrom( ""{,}"") ,repeat
+    string
+
+    chars
+    ,
+	// `tick` ""quote"" 'q'
+  	zchar[	7 ]
+
+calculatedFrom , Header
+
+    {char
+	u
+	`crlf
+line`	, repeat
+
+char[] 
+tag `a\`
+    ,
+	Z9_
+
+@lengthOf(
+
+T
+	)  // " ++ [27880; 37322]%N ++ runes_of_ascii "
+	  `say ""hi""`,
+
+    } 
+, 
+    /// triple
+  // " ++ [27880; 37322]%N ++ runes_of_ascii "
+  msg_type@calculatedFrom(  ""// no comment"" 
+)
+,  @rightPad	(
+'\x00' 
+)  @lengthOf(
+	asx 
+)
+falsey ,
+} 	 // a // b
+")).
+Eval vm_compute in ("<<<M44>>>" ++ check (runes_of_ascii "MetaData BodyLength {} packet x_y_z
+{
+@lengthOf(  roots )
+    A { // " ++ [128512]%N ++ runes_of_ascii " emoji
+repeat
+    zchar[0123456789  ]
+    Z9_`a\`, },
+}
+    options // packet A { u8 x, }
+{ Pad =
+    ""x y"" ; // trailing space 
+trueish
+=
+true body =
+3 ; matchKey=
+true //x
+; i64_ =
+    char[] ; }packet Packet  {char[]
+// " ++ [128512]%N ++ runes_of_ascii " emoji
+// `tick` ""quote"" 'q'
+float@calculatedFrom( ""`tick`"" ) ,char[] charz @calculatedFrom( ""abc"" ) ,match As as
+    // packet A { u8 x, }
+    asx // @lengthOf(
+{ [ """ ++ [28040; 24687]%N ++ runes_of_ascii """, ""`tick`""
+, ""{,}"" ,
+""{,}"" , ""a	b""
+    // " ++ [27880; 37322]%N ++ runes_of_ascii "
+    , 1
+, ""\" ++ [233]%N ++ runes_of_ascii """	] :	rootA
+,
+    255:	asx 42
+    : a1 , 42 : x_y_z  """" :
+    msg_type
+,7 : f32a ,	}
+,  @leftPad
+( '0'
+) repeatCount crc `// not a comment`
+    ,
+@lengthOf(MetaDataX) float64 falsey@calculatedFrom( ""\" ++ [233]%N ++ runes_of_ascii """ ) `" ++ [233]%N ++ runes_of_ascii "` , }
 
 ")).
-Eval vm_compute in ("<<<M1834>>>" ++ check (runes_of_ascii "// trailing space 
-options {
-    MetaDataX = zchar[3];
-    packetx = true
-    u128 = ""\" ++ [233]%N ++ runes_of_ascii """;
-    x = 1
-    x = true;
-}
-
-MetaData u8x {
-    float64 leftPad,
-    a1 As `it's`,
-    int16 metadata,
-    As Packet `100% of %d`,
-    leftPad uint8x `it's`,
-    As Foo,// 50% %s
-}")).
-Eval vm_compute in ("<<<M1545>>>" ++ check (runes_of_ascii "packet float {
-    @leftPad(' ')
-    repeat char[] MetaDataX,
-    @leftPad(
-        )
-    i16 x_y_z @calculatedFrom(""CRC32""),
-}
-
-packet chars {
-}
-
-packet asx {
-    @tag(255)
+Eval vm_compute in ("<<<M1959>>>" ++ check (runes_of_ascii "packet crc {
+    // a // b
     @tag(4294967296)
-    @calculatedFrom(""{,}"")
-    matchKey o `
-        `,
+    @leftPad('\x00')
+    repeat zchar[4294967296] Packet,
+    @leftPad('0')
+    @tag(3)
+    @tag(7)
+    repeat matchKey {
+        u32 u,
+    },
+    @lengthOf(chars)
+    /// triple
+    @calculatedFrom(""a	b"")
+    @tag(0123456789)
+    zchar[255] Pad,
+    repeat uint64 u128 `two words`,
+    @calculatedFrom(""abc"")
+    i8 packetx,
+    string lengthOf,// " ++ [27880; 37322]%N ++ runes_of_ascii "
+}
+
+root packet stringy {
+    @leftPad('0')
+    matchKey roots,
+    // @lengthOf(
+    // trailing space 
+    @tag(7)
+    int8 A @lengthOf(repeatCount) `{ , }`,
+    repeat u {
+        // " ++ [27880; 37322]%N ++ runes_of_ascii "
+        int16 Foo `it's`,
+        string u,
+    },
+}// @lengthOf(")).
+Eval vm_compute in ("<<<M1344>>>" ++ check (runes_of_ascii "// top
+packet // c0a
+  // c0b
+u128
+    // c1
+{ // c2a
+  // c2b
+u8
+    // c3
+a ,
+    // c5
+} // c6a
+  // c6b
+root // c7a
+  // c7b
+packet // c8a
+  // c8b
+Msg // c9
+{ // c10a
+  // c10b
+u8
+    // c11
+k // c12a
+  // c12b
+, u24 // c14a
+  // c14b
+{ // c15
+u8 // c16a
+  // c16b
+Hi
+    // c17
+, u16 // c19
+Lo , // c21
+} , // c23a
+  // c23b
+repeat
+    // c24
+i24
+    // c25
+{ // c26
+u32
+    // c27
+q
+    // c28
+, // c29
+} // c30
+, // c31
+u128 // c32
+, // c33
+u16 // c34a
+  // c34b
+float32x , // c36
+string // c37a
+  // c37b
+s // c38a
+  // c38b
+, // c39a
+  // c39b
+} // c40a
+  // c40b
+")).
+Eval vm_compute in ("<<<M1515>>>" ++ check (runes_of_ascii "
+packet string_ 	 /// triple
+  { match
+
+    MetaDataX as  
+      /// triple
+	  matchKey  {
+[
+	""1"" ,
+
+    ""x y""	]
+: chars  , }
+
+,@leftPad ( ) char[] 
+    // c
+//	t
+      body
+@lengthOf( // `tick` ""quote"" 'q'
+	int
+
+    ),
+	int16
+
+    T
+	, string 
+      // 50% %s
+    	/// triple
+  	int@lengthOf(
+uint8x)  ,	repeat chars Foo	// `tick` ""quote"" 'q'
+  ,}
+
+options { msg_type 
+
+// a // b
+
+=
+
+    true
+
+    f32a
+    =""packet"" 
+}
+root packet u128  { zchar[007 ]
+    metadata
+	@lengthOf( int) `100% of %d`  ,
+	}")).
+Eval vm_compute in ("<<<M1527>>>" ++ check (runes_of_ascii "MetaData o {
+    charz calculatedFrom `
+    `,
+    float64 rootA,
+}
+
+packet A {
+    asx @lengthOf(packetx) `u8 x,`,
+    @lengthOf(packetx)
+    a1 {
+        int32 matchKey @lengthOf(asx) `" ++ [28040; 24687; 31867; 22411]%N ++ runes_of_ascii "`,
+        Header `{ , }`,
+        repeat f64 falsey `100% of %d`,
+    },
+    repeat u32 lengthOf,
+    u64 Z9_,
+    /// triple
+    @lengthOf(_x)
+    packetx {
+        _x,/// triple
+    },
+    zchar[1] a1 @lengthOf(chars),
+    u64 crc `100% of %d`,
+    char[65535] chars,
+}
+
+root packet int {
 }")).
-Eval vm_compute in ("<<<M424>>>" ++ check (runes_of_ascii "packet
+Eval vm_compute in ("<<<M77>>>" ++ check (runes_of_ascii "packet string_ /// triple
+{ match
+MetaDataX as
+    /// triple
+    matchKey {[ ""1"" , ""x y"" ]
+: chars,
+}, @leftPad
+    ( ) char[]
+// c
+//	t
+body @lengthOf( // `tick` ""quote"" 'q'
+int ) , int16
+T
+, string
+// 50% %s
+/// triple
+int  @lengthOf( uint8x ),repeat chars Foo // `tick` ""quote"" 'q'
+, }	options {
+    msg_type
+    // a // b
+    =true
+    f32a =  ""packet"" } root packet u128{	zchar[
+007] metadata  @lengthOf( int)
+`100% of %d`,
+    }")).
+Eval vm_compute in ("<<<M95>>>" ++ check (runes_of_ascii "root packet leftPad  {T
+@lengthOf(	A )
+`" ++ [28040; 24687; 31867; 22411]%N ++ runes_of_ascii "` , Header@lengthOf( // trailing space 
+As  ) ,
+string calculatedFrom
+`" ++ [233]%N ++ runes_of_ascii "` , @calculatedFrom(// " ++ [128512]%N ++ runes_of_ascii " emoji
+""a	b"") repeat x_y_z {
+    char[]T , uint8x { char[
+007]
+    Packet @calculatedFrom( ""`tick`""
+)`100% of %d`
+,
+    } ,
+} ,
+char[]
+    T @lengthOf( f32a
+) ,
+    //x
+    options1 Z9_//	t
+,
+char[ 007 ] body `it's` , repeat zchar[42 ]
+Packet `{ , }` , } // a // b")).
+Eval vm_compute in ("<<<M1534>>>" ++ check (runes_of_ascii "packet o {
+    zchar[7] f32a @calculatedFrom(""a\""b""),
+    @lengthOf(pack)
+    options1,
+    @calculatedFrom(""abc"")
+    Header,
+    @lengthOf(Logon)
+    zchar[4294967296] asx @lengthOf(u) `100% of %d`,
+    @leftPad(' ')
+    @calculatedFrom(""`tick`"")
+    uint16 x_y_z `doc`,
+    @tag(00)
+    zchar[1] u,
+    @calculatedFrom(""a\""b"")
+    //
+    u8x uint8x,
+    char[1] metadata,
+}")).
+Eval vm_compute in ("<<<M1919>>>" ++ check (runes_of_ascii "
+packet
+B 	 // c1a
+
+	// c1b
+  { 
+
+    // c2
+  u8	// c3
+a 	 // c4
+  ,
+
+    string // c6a
+  // c6b
+s
+,  }  root	// c10a
+      // c10b
+  packet 
+      // c11
+  P	// c12a
+  // c12b
+  	{  // c13
+  u16	// c14
+      L@lengthOf(	// c16
+    B	// c17a
+    // c17b
+		)
+
+    // c18
+      ,	// c19
+B
+, 	 // c21
+	  u8 t ,
+
+    }	// c25a
+// c25b
+ 
+")).
+Eval vm_compute in ("<<<M1763>>>" ++ check (runes_of_ascii "packet A {
+    u8 a,
+}
+
+packet B {
+    u16 b,
+}
+
+packet C {
+    u32 c,
+}
+
+root packet M {
+    u16 Kc,
+    u16 Kb,
+    u16 Ka,
+    match Kc as X {
+        9 : A,
+        10 : B,
+    },
+    match Kb as Y {
+        2 : C,
+        1 : A,
+    },
+    match Ka as Z {
+        1 : B,
+    },
+    A,
+    B,
+    C,
+}")).
+Eval vm_compute in ("<<<M1198>>>" ++ check (runes_of_ascii "// top
+options // c0
+{ // c1
+} // c2
+options // c3
+{ // c4
+MetaDataX // c5
+= // c6
+char // c7
+; // c8
+} // c9
+MetaData // c10
+Pad // c11
+{ // c12
+i8 // c13
+metadata // c14
+, // c15
+string // c16
+stringy // c17
+, // c18
+int8 // c19
+As // c20
+`{ , }` // c21
+, // c22
+} // c23
+")).
+Eval vm_compute in ("<<<M308>>>" ++ check (runes_of_ascii "MetaData packetx
+    { zchar[ 255 ]	u128`" ++ [233]%N ++ runes_of_ascii "` ,  } packet Pad {
+repeat crc ,
+zchar[
+10 ]  calculatedFrom `{ , }`
+,}packet _x
+    {@lengthOf(
+roots )match Header
+as metadata
+    // " ++ [27880; 37322]%N ++ runes_of_ascii "
+    {  [ 10
+    ]	:pack } , char[
+255 ] // 50% %s
+Logon
+, } // a // b")).
+Eval vm_compute in ("<<<M162>>>" ++ check (runes_of_ascii "options {i8i8
+    =	""\n"" Header =
+""x y""
+; /// triple
+} root
+    packet
+    A { match charz as
+    T
+    {
+    //
+    0:// trailing space 
+options1// `tick` ""quote"" 'q'
+}, }  packet float/// triple
+{ @rightPad ( ) repeat metadata`u8 x,` , }
+")).
+Eval vm_compute in ("<<<M539>>>" ++ check (runes_of_ascii "packet
     asx { @calculatedFrom(
-""""  ) @tag( options )repeat
-// packet A { u8 x, }
+""""  ) @tag( 255 )repeat
+// packet A { u8 x, ?}
 // trailing space 
 int16 u8x
 ,
@@ -616,7 +843,7 @@ int16 u8x
 // `tick` ""quote"" 'q'
 //x
 } // " ++ [128512]%N ++ runes_of_ascii " emoji")).
-Eval vm_compute in ("<<<M531>>>" ++ check (runes_of_ascii "packet
+Eval vm_compute in ("<<<M503>>>" ++ check (runes_of_ascii "packet
     asx { @calculatedFrom(
 """"  ) @tag( 255 )repeat
 // packet A { u8 x, }
@@ -626,14 +853,177 @@ int16 u8x
 @tag(
     //
     007 )
-    @tag( 0" ++ [8232]%N ++ runes_of_ascii "
+    @tag( 0
+    /// triple
+    ) @tag( 1) u
+    T @lengthOf( ),
+// `tick` ""quote"" 'q'
+//x
+} // " ++ [128512]%N ++ runes_of_ascii " emoji")).
+Eval vm_compute in ("<<<M456>>>" ++ check (runes_of_ascii "packet
+    asx { @calculatedFrom(
+""""  ) @tag( 255 )repeat
+// packet A { u8 x, }
+// trailing space 
+int16 u8x
+,
+@tag(
+    //
+     )
+    @tag( 0
     /// triple
     ) @tag( 1) u
     @lengthOf( T ),
 // `tick` ""quote"" 'q'
 //x
 } // " ++ [128512]%N ++ runes_of_ascii " emoji")).
-Eval vm_compute in ("<<<M473>>>" ++ check (runes_of_ascii "packet
+Eval vm_compute in ("<<<M221>>>" ++ check (runes_of_ascii "packet msg_type { }  packet
+Z9_ {
+roots i8i8,	@lengthOf( string_	)
+char[
+255
+]i64_ , repeat u16 packetx `it's`
+, char[ 255  ]
+u8x	,
+@rightPad(
+'0') @tag(  0123456789
+) zchar[ 7 ]tag
+    `tab	here` ,u32
+charz ``, }
+")).
+Eval vm_compute in ("<<<M1336>>>" ++ check (runes_of_ascii "  root
+
+packet
+
+Frame
+
+{
+
+    u8  K
+	,
+
+    Logon
+
+first , match
+
+K as Body
+
+{
+1
+	:
+	Logon,
+	2
+: Logout
+    ,
+}  , } packet
+
+Logon {string user	,
+    }
+
+packet
+
+    Logout
+{u16 reason	,	} ")).
+Eval vm_compute in ("<<<M151>>>" ++ check (runes_of_ascii "
+MetaData u128 {zchar[
+// " ++ [128512]%N ++ runes_of_ascii " emoji
+// 50% %s
+4294967296 ]
+lengthOf`a\`, } packet
+    leftPad {
+@rightPad('0') calculatedFrom float // 50% %s
+`" ++ [28040; 24687; 31867; 22411]%N ++ runes_of_ascii "` , char[255	]
+    metadata , }")).
+Eval vm_compute in ("<<<M302>>>" ++ check (runes_of_ascii "MetaData o	{ } MetaData
+Header{  repeatCount matchKey  ,}
+packet	As{// c
+@tag(0123456789 ) char[]
+    //	t
+    tag
+,
+    @calculatedFrom(
+""x y""
+) crc
+    `it's` ,
+    }
+")).
+Eval vm_compute in ("<<<M597>>>" ++ check (runes_of_ascii "MetaData u
+    { } MetaData o
+{ float uint8x
+`100% of %d` , ,repeatCount u8x, string_ leftPad
+, i32
+    Foo , int64 x `two words` , calculatedFrom
+stringy `a\` ,
+}
+")).
+Eval vm_compute in ("<<<M554>>>" ++ check (runes_of_ascii "MetaData [
+    { } MetaData o
+{ float uint8x
+`100% of %d` ,repeatCount u8x, string_ leftPad
+, i32
+    Foo , int64 x `two words` , calculatedFrom
+stringy `a\` ,
+}
+")).
+Eval vm_compute in ("<<<M250>>>" ++ check (runes_of_ascii "packet _x { @calculatedFrom( ""packet"" ) char[]
+    T
+    `" ++ [28040; 24687; 31867; 22411]%N ++ runes_of_ascii "`
+,@calculatedFrom(
+""" ++ [28040; 24687]%N ++ runes_of_ascii """	) f64
+pack `" ++ [233]%N ++ runes_of_ascii "` , @calculatedFrom(
+""a	b"" ) repeat crc`100% of %d` //
+,
+}
+")).
+Eval vm_compute in ("<<<M706>>>" ++ check (runes_of_ascii "MetaData u
+    { } MetaData o
+{ float x" ++ [178]%N ++ runes_of_ascii "
+`100% of %d` ,repeatCount u8x, string_ leftPad
+, i32
+    Foo , int64 x `two words` , calculatedFrom
+stringy `a\` ,
+}
+")).
+Eval vm_compute in ("<<<M601>>>" ++ check (runes_of_ascii "MetaData u
+    { } MetaData o
+{ float uint8x
+`100% of %d` , u8x, string_ leftPad
+, i32
+    Foo , int64 x `two words` , calculatedFrom
+stringy `a\` ,
+}
+")).
+Eval vm_compute in ("<<<M1903>>>" ++ check (runes_of_ascii "
+
+  packet
+	A {
+match
+
+k
+as 
+n
+{[ 1 ,
+
+    22	,
+
+    007 
+, 
+4  ,
+
+    5	,
+66
+,
+	7  , 8 ,
+9
+,  10
+    ,
+11
+    ] :B
+
+,
+2 : C } ,
+    } ")).
+Eval vm_compute in ("<<<M465>>>" ++ check (runes_of_ascii "packet
     asx { @calculatedFrom(
 """"  ) @tag( 255 )repeat
 // packet A { u8 x, }
@@ -642,295 +1032,91 @@ int16 u8x
 ,
 @tag(
     //
-    007 )
-    @tag( )
-    /// triple
-    0 @tag( 1) u
-    @lengthOf( T ),
-// `tick` ""quote"" 'q'
-//x
-} // " ++ [128512]%N ++ runes_of_ascii " emoji")).
-Eval vm_compute in ("<<<M1543>>>" ++ check (runes_of_ascii "// " ++ [27880; 37322]%N ++ runes_of_ascii "
-packet Header {
-    @tag(00)
-    u32 charz @lengthOf(f32a) `" ++ [233]%N ++ runes_of_ascii "`,
-    int32 Pad `doc`,
-    @leftPad(  '\x00'
-        // " ++ [27880; 37322]%N ++ runes_of_ascii "
-        )
-    BodyLength T `" ++ [233]%N ++ runes_of_ascii "`,
+    007")).
+Eval vm_compute in ("<<<M54>>>" ++ check (runes_of_ascii "// trailing space 
+packet
+stringy
+{	repeat char[]  roots , @leftPad
+    //x
+    (// c
+' '  )char T `// not a comment`
+    ,//
 }
-
-packet stringy {
-    /// triple
-    msg_type,
-}
-
-MetaData f32a {
-}// " ++ [128512]%N ++ runes_of_ascii " emoji")).
-Eval vm_compute in ("<<<M1908>>>" ++ check (runes_of_ascii "options {
-    //
-    u128 = zchar[10];
-    body = '0'
-    Z9_ = float64;
-    i8i8 = ""a\\"";
-}
-
-packet T {
-    char[42] asx @calculatedFrom(""CRC32""),
-}
-
-// trailing space 
-// " ++ [128512]%N ++ runes_of_ascii " emoji
-root packet x {
-    Pad u128 `100% of %d`,
+")).
+Eval vm_compute in ("<<<M1473>>>" ++ check (runes_of_ascii "options {
+    charz = ""a\\""
+    // trailing space 
+    rootA = ""packet"";
+    x = ""a	b"";
+    // " ++ [27880; 37322]%N ++ runes_of_ascii "
+    rootA = string
 }")).
-Eval vm_compute in ("<<<M1706>>>" ++ check (runes_of_ascii "packet Logon {
-    string user,
-}
-
-root packet Frame {
-    u8 K,
-    match K as Body {
-        1 : Logon,
-        2 : Logout,
-    },
-    Tail,
-}
-
-packet Logout {
-    u16 reason,
-}
-
-packet Tail {
-    u32 crc,
+Eval vm_compute in ("<<<M1212>>>" ++ check (runes_of_ascii "options { } options {
+// c
+MetaDataX = char ; } MetaData Pad { i8 metadata , string stringy , int8 As `{ , }` , }")).
+Eval vm_compute in ("<<<M1244>>>" ++ check (runes_of_ascii "options { } options { MetaDataX = char ; } MetaData Pad { i8 metadata , string stringy , int8 As
+// c
+`{ , }` , }")).
+Eval vm_compute in ("<<<M899>>>" ++ check (runes_of_ascii "packet A {
+  match k as n {
+    [""a"", ""bb"", 007, ""d"", ""e"", 66, ""g"", ""h"", 9, ""j"", ""k""] : B,
+    2 : C
+  },
 }")).
-Eval vm_compute in ("<<<M318>>>" ++ check (runes_of_ascii "packet pack	{} options
-    {_x
-    =""1""	; tag = 007
-    matchKey= ""it's"";
-charz
-    =
-uint16 ; } // @lengthOf(
+Eval vm_compute in ("<<<M886>>>" ++ check (runes_of_ascii "packet A {
+  match k as n {
+    [""a"", ""bb"", 007, ""d"", ""e"", 66, ""g"", ""h"", 9, ""j""] : B,
+    2 : C
+  },
+}")).
+Eval vm_compute in ("<<<M345>>>" ++ check (runes_of_ascii "
+options
+    { Packet//x
+=""a\\""
+Logon
+    = true f32a
+    = true // 50% %s
+;falsey = false
+; }")).
+Eval vm_compute in ("<<<M385>>>" ++ check (runes_of_ascii "root packet SimpleMessage {
+    uint16 MsgType `" ++ [28040; 24687; 31867; 22411]%N ++ runes_of_ascii "`,
+    string JsonBody `Json" ++ [23383; 31526; 20018; 28040; 24687; 20307]%N ++ runes_of_ascii "`,
+}")).
+Eval vm_compute in ("<<<M876>>>" ++ check (runes_of_ascii "packet A {
+  match k as n {
+    [1, 22, 007, 4, 5, 66, 7, 8, 9, 10] : B,
+    2 : C
+  },
+}")).
+Eval vm_compute in ("<<<M286>>>" ++ check (runes_of_ascii "// a // b
+root packet falsey {
+    }	options {Pad//
+= // " ++ [27880; 37322]%N ++ runes_of_ascii "
+f32 } root packet T { }")).
+Eval vm_compute in ("<<<M831>>>" ++ check (runes_of_ascii "packet A {
+  match k as n {
+    [""a"", 22, ""c c"", 4, ""e"", 66] : B
+    2 : C
+  },
+}")).
+Eval vm_compute in ("<<<M620>>>" ++ check (runes_of_ascii "MetaData u
+    { } MetaData o
+{ float uint8x
+`100% of %d` ,repeatCount u8x,")).
+Eval vm_compute in ("<<<M1910>>>" ++ check (runes_of_ascii "// c
+packet options1 {
+    options1 x,
+}
+
 options {
-msg_type =007  ;
-    stringy
-=
-    ""`tick`""stringy =
-    007 ;}
-")).
-Eval vm_compute in ("<<<M567>>>" ++ check (runes_of_ascii "MetaData u
-    { } MetaData MetaData o
-{ float uint8x
-`100% of %d` ,repeatCount u8x, string_ leftPad
-, i32
-    Foo , int64 x `two words` , calculatedFrom
-stringy `a\` ,
+    Logon = float32
+}")).
+Eval vm_compute in ("<<<M1294>>>" ++ check (runes_of_ascii "root packet P {
+    u16 a,
+    u32 Sum @calculatedFrom(""CR\
+C32""),
 }
 ")).
-Eval vm_compute in ("<<<M688>>>" ++ check (runes_of_ascii "MetaData u
-    { } MetaData o
-{ float uint8x
-`100% of %d` ,repeatCount u8x, string_ leftPad
-, i32
-    Foo , int64 x `two words` , calculatedFrom
-stringy `a\` ,
-char
-")).
-Eval vm_compute in ("<<<M1697>>>" ++ check (runes_of_ascii "MetaData u {
-}
-
-MetaData o {
-    float uint8x `100% of %d`,
-    u64 u8x,
-    string_ leftPad,
-    i32 Foo,
-    int64 x `two words`,
-    calculatedFrom stringy `a\`,
-}")).
-Eval vm_compute in ("<<<M633>>>" ++ check (runes_of_ascii "MetaData u
-    { } MetaData o
-{ float uint8x
-`100% of %d` ,repeatCount u8x, string_ leftPad
-, Foo
-    i32 , int64 x `two words` , calculatedFrom
-stringy `a\` ,
-}
-")).
-Eval vm_compute in ("<<<M358>>>" ++ check (runes_of_ascii "  packet
-// 50% %s
-// @lengthOf(
-len{ @rightPad ( ' '
-)uint8x asx `// not a comment` , @calculatedFrom( ""// no comment""
-) // @lengthOf(
-repeat f64 uint8x`a\` , }")).
-Eval vm_compute in ("<<<M691>>>" ++ check (runes_of_ascii "MetaData u
-    { } MetaData o
-{ float uint8x
-`100% of %d` ,repeatCount u8x, string_ leftPad
-, i32
-    Foo , int64 x `two words` , calculatedFrom
-stringy `a")).
-Eval vm_compute in ("<<<M666>>>" ++ check (runes_of_ascii "MetaData u
-    { } MetaData o
-{ float uint8x
-`100% of %d` ,repeatCount u8x, string_ leftPad
-, i32
-    Foo , int64 x `two words` , 
-stringy `a\` ,
-}
-")).
-Eval vm_compute in ("<<<M1404>>>" ++ check (runes_of_ascii "packet A {
-    Inner {
-        u8 x `x
-                `,
-        Deep {
-            u8 y `x
-                        `,
-        },
-    },
-}")).
-Eval vm_compute in ("<<<M1738>>>" ++ check (runes_of_ascii "packet A {
-    match k as n {
-        [
-            1, 22, 007, 4, 5,
-            66, 7, 8, 9
-        ] : B,
-        2 : C,
-    },
-}")).
-Eval vm_compute in ("<<<M1904>>>" ++ check (runes_of_ascii "packet  A
-    {
-match k
-as  n
-{ [ 1,22,""c c""
-
-, 4, 5 ,
-
-""f""
-    ,
-	7
-	,
-
-    8
-    ,
-	""i""
-	]	:
-	B
-	2
-	:  C
-
-    }, }
-")).
-Eval vm_compute in ("<<<M992>>>" ++ check (runes_of_ascii "packet A {
-    match k as n {
-        ""%d%s"" : B,
-        [""%d%s"", 1] : C,
-        [1,2,3,4,5,""%d%s""] : D,
-    },
-}")).
-Eval vm_compute in ("<<<M1221>>>" ++ check (runes_of_ascii "options { } options { MetaDataX = char ; } // c
-MetaData Pad { i8 metadata , string stringy , int8 As `{ , }` , }")).
-Eval vm_compute in ("<<<M891>>>" ++ check (runes_of_ascii "packet A {
-  match k as n {
-    [""a"", ""bb"", ""c c"", ""d"", ""e"", ""f"", ""g"", ""h"", ""i"", ""j"", ""k""] : B,
-    2 : C
-  },
-}")).
-Eval vm_compute in ("<<<M1953>>>" ++ check (runes_of_ascii "
-packet B {	u8 
-a, string
-    s
-,
-} 
-root	packet P { u16
-    L@lengthOf( B  )
-
-    ,B ,
-
-    u8 t , }")).
-Eval vm_compute in ("<<<M1737>>>" ++ check (runes_of_ascii "packet  A
-{
-
-    match 
-k
-as n	{
-
-    [	""a""
-,
-
-    22 , ""c c""  , 4 
-]	: 
-B , 
-2  :
-	C} ,
-}
-
-")).
-Eval vm_compute in ("<<<M930>>>" ++ check (runes_of_ascii "packet A {
-    Inner {
-        u8 x `
-`,
-        Deep {
-            u8 y `
-`,
-        },
-    },
-}")).
-Eval vm_compute in ("<<<M1519>>>" ++ check (runes_of_ascii "options 
-        //
-  {
-	MetaDataX // " ++ [128512]%N ++ runes_of_ascii " emoji
-    =
-
-false	crc = char[]
-	// a // b
-  //x
-}
-")).
-Eval vm_compute in ("<<<M848>>>" ++ check (runes_of_ascii "packet A {
-  match k as n {
-    [""a"", ""bb"", 007, ""d"", ""e"", 66, ""g""] : B
-    2 : C
-  },
-}")).
-Eval vm_compute in ("<<<M625>>>" ++ check (runes_of_ascii "MetaData u
-    { } MetaData o
-{ float uint8x
-`100% of %d` ,repeatCount u8x, string_")).
-Eval vm_compute in ("<<<M851>>>" ++ check (runes_of_ascii "packet A {
-  match k as n {
-    [1, 22, 007, 4, 5, 66, 7, 8] : B
-    2 : C
-  },
-}")).
-Eval vm_compute in ("<<<M1409>>>" ++ check (runes_of_ascii "packet
-    A{ 
-match	k
-    as
-n
-{[""a"" ,
-    ""bb""]:
-
-B
-,
-	2
-	:
-
-C}
-	,
-    }")).
-Eval vm_compute in ("<<<M805>>>" ++ check (runes_of_ascii "packet A {
-  match k as n {
-    [""a"", 22, ""c c"", 4] : B
-    2 : C
-  },
-}")).
-Eval vm_compute in ("<<<M1618>>>" ++ check (runes_of_ascii "MetaData u8x {
-    uint8 T `" ++ [233]%N ++ runes_of_ascii "`,
-    i32 MetaDataX,
-    float32 crc,
-}")).
 Eval vm_compute in ("<<<M1120>>>" ++ check (runes_of_ascii "// top
 MetaData
     // c0
@@ -947,40 +1133,42 @@ Eval vm_compute in ("<<<M773>>>" ++ check (runes_of_ascii "packet A {
     2 : C
   },
 }")).
-Eval vm_compute in ("<<<M1089>>>" ++ check (runes_of_ascii "packet A { match k as n { 1 : B // a // b 2 : C }, }")).
-Eval vm_compute in ("<<<M1092>>>" ++ check (runes_of_ascii "packet A {} packet B {} MetaData M {} options {}")).
-Eval vm_compute in ("<<<M990>>>" ++ check (runes_of_ascii "options {
-    a = ""%d%s"";
-    b = ""%d%s""
-}")).
-Eval vm_compute in ("<<<M762>>>" ++ check (runes_of_ascii "= options match """ ++ [233]%N ++ runes_of_ascii "t" ++ [233]%N ++ runes_of_ascii """ uint32 ; ""CRC32""")).
-Eval vm_compute in ("<<<M1190>>>" ++ check (runes_of_ascii "options { A =
-// c
-""// no comment"" }")).
-Eval vm_compute in ("<<<M192>>>" ++ check (runes_of_ascii "
-options
-    { asx = false
-;  }
+Eval vm_compute in ("<<<M280>>>" ++ check (runes_of_ascii "packet T{ zchar[  7
+]  charz , } packet MetaDataX { }
 ")).
-Eval vm_compute in ("<<<M1042>>>" ++ check (runes_of_ascii "packet A {
- u8 x `d" ++ [8239]%N ++ runes_of_ascii "`, // c" ++ [8239]%N ++ runes_of_ascii "
-}")).
-Eval vm_compute in ("<<<M1522>>>" ++ check (runes_of_ascii "  packet int {	} 
-	//	t
- 
+Eval vm_compute in ("<<<M222>>>" ++ check (runes_of_ascii "options// packet A { u8 x, }
+{ i8i8 = '\x00' }
 ")).
-Eval vm_compute in ("<<<M1144>>>" ++ check (runes_of_ascii "root
-// c
-packet a1 { }")).
-Eval vm_compute in ("<<<M1847>>>" ++ check (runes_of_ascii "MetaData tag {
+Eval vm_compute in ("<<<M124>>>" ++ check (runes_of_ascii "packet A { repeat f64 A , } // @lengthOf(")).
+Eval vm_compute in ("<<<M190>>>" ++ check (runes_of_ascii "MetaData i8i8 {// a // b
+int8 As , }
+")).
+Eval vm_compute in ("<<<M1553>>>" ++ check (runes_of_ascii "root
+packet
+
+    P { string 
+s ,} ")).
+Eval vm_compute in ("<<<M1933>>>" ++ check (runes_of_ascii "MetaData u128 {
+    body float,
+}")).
+Eval vm_compute in ("<<<M1012>>>" ++ check (runes_of_ascii "packet A {
+ u8 x `d" ++ [133]%N ++ runes_of_ascii "`, // c" ++ [133]%N ++ runes_of_ascii "
+}")).
+Eval vm_compute in ("<<<M1929>>>" ++ check (runes_of_ascii "  packet  A
+	{}
+	    // c 
+")).
+Eval vm_compute in ("<<<M157>>>" ++ check (runes_of_ascii "MetaData x_y_z
+    { }
+")).
+Eval vm_compute in ("<<<M1128>>>" ++ check (runes_of_ascii "MetaData tag { // c
+}")).
+Eval vm_compute in ("<<<M1035>>>" ++ check (runes_of_ascii "packet A {
 }
-// c")).
-Eval vm_compute in ("<<<M1036>>>" ++ check (runes_of_ascii "// c" ++ [8233]%N ++ runes_of_ascii "
-packet A {
+// c" ++ [8233]%N)).
+Eval vm_compute in ("<<<M1018>>>" ++ check (runes_of_ascii "packet A {
+}// c" ++ [8192]%N)).
+Eval vm_compute in ("<<<M1832>>>" ++ check (runes_of_ascii "packet i64_ {
 }")).
-Eval vm_compute in ("<<<M1028>>>" ++ check (runes_of_ascii "packet A {
-}// c" ++ [8232]%N)).
-Eval vm_compute in ("<<<M123>>>" ++ check (runes_of_ascii "
-packet _x {}
-")).
-Eval vm_compute in ("<<<M1014>>>" ++ check (runes_of_ascii "// c" ++ [5760]%N)).
+Eval vm_compute in ("<<<M994>>>" ++ check (runes_of_ascii "// c ")).
+Eval vm_compute in ("<<<M729>>>" ++ check (runes_of_ascii "/")).
